@@ -12,6 +12,11 @@
      cleanup <I:i | C:i:g>
      restart
      wipe                            node restart: running/ and cleanup/ cleared
+     pmkapp <i:g> | prmapp <i:g> | pmark <i:g> terminated | pcacherm <i> | ptermmv <i> |
+     prunlink <i> <i:g> | pcleanlink <i> <i:g>
+                                     the file system mutations a handler completed before the manager was
+                                     killed in it (harness op `crash`), always followed by `restart`;
+                                     driver-level state updates, not constructors of `Op`
    output: the whole state, canonically sorted (or bad-op / bad-gen / bad-order).
 -/
 import TmVerif.Base.Proto
